@@ -17,7 +17,7 @@ from pbmon.oracle import c12_gametes as O
 
 PROPERTY = "C12"
 NSHARDS = {"quick": 4, "thorough": 16}
-CLAUSES = {   # minimum evaluations per run (a quick run reaches about three times these numbers)
+CLAUSES = {   # minimum evaluations per run (a quick run reaches three to seven times these numbers)
     "C12.genetic": 10000, "C12.genic": 1000,
     "C12.structure.symmetry": 500, "C12.structure.zero": 4000, "C12.structure.reorder": 400, "C12.structure.labels": 400,
     "C12.routes": 500, "C12.chunk": 200, "C12.uc": 600, "C12.uc.shape": 80,
